@@ -276,7 +276,94 @@ func C10(c *core.Ctx) {
 				}
 				c.Check("R1", "conv-total:"+name, pos, !skips, "every report of the batch is converted and kept (no iteration of the conversion loop skips it)")
 			} else if keep == nil {
-				c.Check("R1", "conv-total:"+name, d.Pos(), false, "the converted report is not appended to a result list")
+				// a conversion helper (returns the converted report): the list is kept by its callers - judge every
+				// call site's loop instead, and count the call sites as conversion sites
+				returnsIt := false
+				core.Instrs(fn, func(in ssa.Instruction) {
+					if r, isR := in.(*ssa.Return); isR && len(r.Results) >= 1 {
+						if ld, isLd := r.Results[0].(*ssa.UnOp); isLd && ld.X == ssa.Value(d) {
+							returnsIt = true
+						}
+					}
+				})
+				nCallers := 0
+				if returnsIt {
+					for _, caller := range p.OwnFuncs() {
+						for _, ci := range core.Calls(caller, fn.Object().(*types.Func)) {
+							nCallers++
+							var keep2 ssa.Instruction
+							if v := ci.Value(); v != nil {
+								for _, u := range *v.Referrers() {
+									switch y := u.(type) {
+									case *ssa.Store:
+										if ia, ok := y.Addr.(*ssa.IndexAddr); ok {
+											if al, ok := ia.X.(*ssa.Alloc); ok {
+												for _, r3 := range *al.Referrers() {
+													if sl, ok := r3.(*ssa.Slice); ok {
+														for _, r4 := range *sl.Referrers() {
+															if cl, ok := r4.(*ssa.Call); ok {
+																if bi, ok := cl.Call.Value.(*ssa.Builtin); ok && bi.Name() == "append" {
+																	keep2 = cl
+																}
+															}
+														}
+													}
+												}
+											}
+										} else if al, ok := y.Addr.(*ssa.Alloc); ok { // usar := convert(r); ... append(list, usar)
+											for _, r3 := range *al.Referrers() {
+												if ld, ok := r3.(*ssa.UnOp); ok {
+													for _, r4 := range *ld.Referrers() {
+														if st2, ok := r4.(*ssa.Store); ok {
+															if ia, ok := st2.Addr.(*ssa.IndexAddr); ok {
+																if al2, ok := ia.X.(*ssa.Alloc); ok {
+																	for _, r5 := range *al2.Referrers() {
+																		if sl, ok := r5.(*ssa.Slice); ok {
+																			for _, r6 := range *sl.Referrers() {
+																				if cl, ok := r6.(*ssa.Call); ok {
+																					if bi, ok := cl.Call.Value.(*ssa.Builtin); ok && bi.Name() == "append" {
+																						keep2 = cl
+																					}
+																				}
+																			}
+																		}
+																	}
+																}
+															}
+														}
+														if mu, ok := r4.(*ssa.MapUpdate); ok {
+															keep2 = mu
+														}
+													}
+												}
+											}
+										}
+									case *ssa.MapUpdate:
+										keep2 = y
+									}
+								}
+							}
+							cname := core.FnName(caller)
+							if keep2 == nil {
+								c.Check("R1", "conv-total:"+cname, ci.Pos(), false, "the report converted by "+name+" is not appended to a result list")
+								continue
+							}
+							skips, where := iterationSkips(loopHeaderOf(keep2), keep2.Block())
+							pos := keep2.Pos()
+							if where != nil {
+								pos = where.Instrs[len(where.Instrs)-1].Pos()
+							}
+							c.Check("R1", "conv-total:"+cname, pos, !skips, "every report of the batch is converted (by "+name+") and kept (no iteration of the conversion loop skips it)")
+						}
+					}
+				}
+				if nCallers == 0 {
+					c.Check("R1", "conv-total:"+name, d.Pos(), false, "the converted report is not appended to a result list")
+				}
+				// the helper was counted as one site already; every further call site is one more
+				for i := 1; i < nCallers; i++ {
+					sites = append(sites, site{fn, tbl, hasTrg})
+				}
 			}
 			// nothing else is filled from a wrong place
 			for dpath, got := range tbl {
@@ -440,21 +527,21 @@ func C10(c *core.Ctx) {
 			good := len(names) == 1 && names[0] == "RemoteID"
 			if ex, ok := root.(*ssa.Extract); good && ok {
 				cl, ok := ex.Tuple.(*ssa.Call)
-				good = ok && core.Callee(cl) == p.Method(pkgPfcp, "LocalNode", "Sess") && core.CallArgs(cl)[0] == ssa.Value(core.Param(fn, 1))
+				good = ok && core.Callee(cl) == p.Method(pkgPfcp, "LocalNode", "Sess") && isInputOfType(fn, core.CallArgs(cl)[0], isUint64T)
 			} else {
 				good = false
 			}
 			c.Check("R4", "report-seid:"+h, ci.Pos(), good, "the Session Report Request is addressed with the RemoteID of the session looked up by the report's own SEID")
 		}
 		for _, ci := range core.Calls(fn, p.Method(pkgPfcp, "PfcpServer", "sendReqTo")) {
-			c.Check("R4", "report-dest:"+h, ci.Pos(), core.CallArgs(ci)[1] == ssa.Value(core.Param(fn, 0)), "the request goes to the address handed in by ServeReport")
+			c.Check("R4", "report-dest:"+h, ci.Pos(), isInputOfType(fn, core.CallArgs(ci)[1], isNetAddrT), "the request goes to the address handed in by ServeReport")
 		}
 	}
 	reportDestination(c, "R4")
 	if fn := fnOf(c, "R4", pkgPfcp, "PfcpServer", "ServeReport"); fn != nil {
 		for _, name := range []string{"serveUSAReport", "serveDLDReport"} {
 			for _, ci := range core.Calls(fn, p.Method(pkgPfcp, "PfcpServer", name)) {
-				_, kn := core.FieldPath(core.CallArgs(ci)[1])
+				_, kn := core.FieldPath(callInputOfType(ci, isUint64T))
 				c.Check("R4", "report-seid-passed:"+name, ci.Pos(), len(kn) == 1 && kn[0] == "SEID", "ServeReport hands the report's own SEID on")
 			}
 		}
@@ -843,7 +930,7 @@ func reportDestination(c *core.Ctx, rule string) {
 		for _, ci := range core.Calls(fn, p.Method(pkgPfcp, "PfcpServer", name)) {
 			bad := ""
 			fromNode := false
-			for _, t := range destTerminals(core.CallArgs(ci)[0]) {
+			for _, t := range destTerminals(callInputOfType(ci, isNetAddrT)) {
 				if t.kind == "const" {
 					continue
 				}
